@@ -39,6 +39,15 @@ const c04Prelude = `def mkreb(b):
 def fz(x):
     hostfreeze(x)
     return x
+def mkboxreb(b):
+    x = [1]
+    def get():
+        return x
+    box = (get,)
+    keepbox = [box]
+    hostfreeze(keepbox)
+    x = b
+    return keepbox
 `
 
 func c04Source(g *c04Graph) string {
@@ -74,6 +83,8 @@ func c04Source(g *c04Graph) string {
 				e = fmt.Sprintf("(lambda v: lambda: mut(v))(node(%d))", c)
 			case "rebclosure":
 				e = fmt.Sprintf("mkreb(node(%d))", c)
+			case "boxreb":
+				e = fmt.Sprintf("mkboxreb(node(%d))", c)
 			case "bound":
 				m := map[string]string{"list": "append", "dict": "setdefault", "set": "add"}[g.Kinds[c-1]]
 				e = fmt.Sprintf("node(%d).%s", c, m)
